@@ -44,7 +44,7 @@ Init == /\ gdb = 0 /\ gs = 0 /\ extra = {}
 \* outcome classes a step may show: "ok", "error", or either (depends on the ORM's transaction bookkeeping)
 Step(c) ==
   /\ Len(hist) < MaxDepth
-  /\ (c \in LibCmds \ {"lib_load"}) => sess.open
+  /\ (c \in LibCmds \ {"lib_load", "lib_other_rw_reader", "lib_other_ro_reader"}) => sess.open
   /\ (c = "lib_load") => ~sess.open
   /\ LET s1 ==
        CASE c = "lib_load" -> [open |-> TRUE, pending |-> NoPending, emitted |-> FALSE]
